@@ -226,7 +226,10 @@ def read_next(built):
     return out
 
 
-def sym_init(M, built, symtype, symvals=None, vals=None, prefix="", shuffle_keys=None):
+SEG_WORDS = ("upstream", "middle", "downstream", "exit", "km9", "km10", "b", "a", "zeta", "gantry", "x12", "x2", "last")
+
+
+def sym_init(M, built, symtype, symvals=None, vals=None, prefix="", shuffle_keys=None, named_scalars=None):
     """Creates one symbol per declared variable and returns (init_conditions, syms)
     where syms = {id: {name: symbol}}.  Registers the values in symvals."""
     import casadi as cs
@@ -239,6 +242,17 @@ def sym_init(M, built, symtype, symvals=None, vals=None, prefix="", shuffle_keys
         for grp in ("states", "actions", "disturbances"):
             for name, n in L[grp]:
                 sname = f"{prefix}{name}_{eid}"
+                if named_scalars is not None and symtype == "SX" and n >= 2 and named_scalars.random() < 0.5:
+                    # a vector assembled from individually named scalar symbols (one per segment, as a
+                    # modelling layer may hand them over), in no particular alphabetical order
+                    words = named_scalars.sample(SEG_WORDS, n) if n <= len(SEG_WORDS) else [f"s{j}" for j in range(n)]
+                    parts = [XX.sym(f"{sname}_{w_}") for w_ in words]
+                    s = cs.vertcat(*parts)
+                    if symvals is not None and vals is not None:
+                        for p_, x_ in zip(parts, vals[eid][name]):
+                            symvals.set(p_.name(), x_)
+                    d[name] = s
+                    continue
                 s = XX.sym(sname, n, 1)
                 d[name] = s
                 if symvals is not None and vals is not None:
